@@ -125,6 +125,16 @@ func runC19(ctx *core.Ctx, out *core.Out) {
 		out.Violate("C19:"+sig, what, d)
 	}
 
+	// history: on some connections a shared prepared ping (a heartbeat) was sent before
+	heartbeat, _ := ws.NewPreparedMessage(ws.PingMessage, []byte("hb"))
+	hbSent := map[int]bool{}
+	for i, cn := range conns {
+		if typ < 8 && r.Chance(1, 3) {
+			if e := cn.c.WritePreparedMessage(heartbeat); e == nil {
+				hbSent[i] = true
+			}
+		}
+	}
 	pm, err := ws.NewPreparedMessage(typ, caller)
 	if err != nil {
 		fail("valid-prepared-refused", fmt.Sprintf("NewPreparedMessage(type %d, %d bytes) failed: %v", typ, size, err), nil)
@@ -194,6 +204,14 @@ func runC19(ctx *core.Ctx, out *core.Out) {
 			}
 			fail("ill-formed", fmt.Sprintf("connection %d (%s): %s", ci, cn.cfg, what), map[string]interface{}{"conn": ci, "frames": framesDesc(frames, 12)})
 			return
+		}
+		if hbSent[ci] {
+			if len(msgs) == 0 || msgs[0].Op != 9 || string(msgs[0].Data) != "hb" {
+				fail("heartbeat-lost", fmt.Sprintf("connection %d: the prepared ping sent first is not the first message on the wire", ci), map[string]interface{}{"conn": ci})
+				return
+			}
+			msgs = msgs[1:]
+			out.Count("connections_with_an_earlier_prepared_ping", 1)
 		}
 		// expected number of messages: all sends up to and including the first close
 		want := len(cn.exp)
